@@ -448,6 +448,9 @@ func (m *Machine) report(kind, id, msg string, bad *Term) {
 	p := m.path
 	R := m.openRegions()
 	if m.check(bad, m.ts.Not(R)) == Sat {
+		if p.lastPanic != "" && kind == "assert" {
+			msg += " [last panic caught by vn.Try: " + p.lastPanic + "]"
+		}
 		v := Violation{Harness: m.curHarness, Assert: id, Kind: kind, Msg: msg}
 		v.Vector = m.modelVector()
 		v.Obs = m.modelObs()
